@@ -10,6 +10,8 @@ CONSTANTS EstimatorSet, DistrictKinds, EstimandSet, AlphaSet, AggSet, MaxEsts, M
 
 ThreeEstimators == {"nonparametric", "gaussian", "bootstrap"}
 GaussianOnly == {"gaussian"}
+NonparametricOnly == {"nonparametric"}
+BootstrapOnly == {"bootstrap"}
 Conformal2 == {"nonparametric", "gaussian"}
 VoteCounts == {"turnout", "dem", "gop"}
 TwoCounts == {"turnout", "dem"}
